@@ -2,13 +2,15 @@
 //!   sf.items <fmt> lenient        -> canonical item list, or err:Unbounded beyond 16*len+32 items
 //!   sf.fmt kind value <fmt>       -> text, or err:fmt when formatting fails (strict items)
 //!   sf.fmtl kind value <fmt>      -> same with StrftimeItems::new_lenient
+//!   sf.dfmt kind value <fmt>      -> text through the deprecated free function chrono::format::format
+//!   sf.dfmti kind value <fmt>     -> text through chrono::format::format_item, item by item
 //! kind: 0 NaiveDate, 1 NaiveTime, 2 NaiveDateTime, 3 DateTime<FixedOffset>, 4 DateTime<Utc>.
 //! Canonical items: (0,text) Literal, (1,text) Space, (2,numeric,pad) Numeric, (3,fixed) Fixed,
 //! (4) Error; numeric/fixed/pad numbered in declaration order of src/format/mod.rs, the internal
 //! fixed items 100.. in declaration order of InternalInternal.
 use crate::val::*;
 use chrono::format::{Fixed, Item, Numeric, Pad, StrftimeItems};
-use chrono::{DateTime, TimeZone, Utc};
+use chrono::{DateTime, FixedOffset, NaiveDate, NaiveTime, Offset, TimeZone, Utc};
 use std::fmt::Write;
 
 fn enc_pad(p: Pad) -> i128 {
@@ -91,6 +93,54 @@ fn fmt(kind: i128, v: &Val, f: &str, lenient: bool) -> Option<Val> {
     })
 }
 
+/// the arguments of the deprecated free functions `chrono::format::format` / `format_item`
+#[derive(Clone)]
+struct FArgs { date: Option<NaiveDate>, time: Option<NaiveTime>, off: Option<(String, FixedOffset)> }
+/// `Display` through `chrono::format::format`
+struct ViaFormat<'a> { a: &'a FArgs, items: StrftimeItems<'a> }
+impl std::fmt::Display for ViaFormat<'_> {
+    fn fmt(&self, w: &mut std::fmt::Formatter) -> std::fmt::Result {
+        #[allow(deprecated)]
+        chrono::format::format(w, self.a.date.as_ref(), self.a.time.as_ref(), self.a.off.as_ref(), self.items.clone())
+    }
+}
+/// `Display` through `chrono::format::format_item`
+struct ViaItem<'a> { a: &'a FArgs, item: &'a Item<'a> }
+impl std::fmt::Display for ViaItem<'_> {
+    fn fmt(&self, w: &mut std::fmt::Formatter) -> std::fmt::Result {
+        #[allow(deprecated)]
+        chrono::format::format_item(w, self.a.date.as_ref(), self.a.time.as_ref(), self.a.off.as_ref(), self.item)
+    }
+}
+fn fargs(kind: i128, v: &Val) -> Option<FArgs> {
+    Some(match kind {
+        0 => FArgs { date: Some(dec_date(v)?), time: None, off: None },
+        1 => FArgs { date: None, time: Some(dec_time(v)?), off: None },
+        2 => { let n = dec_ndt(v)?; FArgs { date: Some(n.date()), time: Some(n.time()), off: None } }
+        3 => {
+            let d = dec_dt(v)?;
+            let o = d.offset().fix();
+            let local = d.naive_utc().checked_add_offset(o)?;
+            FArgs { date: Some(local.date()), time: Some(local.time()), off: Some((d.offset().to_string(), o)) }
+        }
+        4 => {
+            let t = v.tup()?; if t.len() != 4 { return None; }
+            let n = dec_ndt(v)?;
+            FArgs { date: Some(n.date()), time: Some(n.time()), off: Some((Utc.to_string(), Utc.fix())) }
+        }
+        _ => return None,
+    })
+}
+fn dfmt(kind: i128, v: &Val, f: &str, per_item: bool) -> Option<Val> {
+    let a = fargs(kind, v)?;
+    if !per_item { return Some(render(ViaFormat { a: &a, items: StrftimeItems::new(f) })); }
+    let mut s = String::new();
+    for item in StrftimeItems::new(f) {
+        if write!(&mut s, "{}", ViaItem { a: &a, item: &item }).is_err() { return Some(verr("fmt")); }
+    }
+    Some(vstr(&s))
+}
+
 pub fn dispatch(op: &str, a: &[Val]) -> Option<Val> {
     let r = match op {
         "sf.items" => (|| {
@@ -101,6 +151,8 @@ pub fn dispatch(op: &str, a: &[Val]) -> Option<Val> {
         })(),
         "sf.fmt" => (|| fmt(a.get(0)?.int()?, a.get(1)?, a.get(2)?.str()?, false))(),
         "sf.fmtl" => (|| fmt(a.get(0)?.int()?, a.get(1)?, a.get(2)?.str()?, true))(),
+        "sf.dfmt" => (|| dfmt(a.get(0)?.int()?, a.get(1)?, a.get(2)?.str()?, false))(),
+        "sf.dfmti" => (|| dfmt(a.get(0)?.int()?, a.get(1)?, a.get(2)?.str()?, true))(),
         _ => return None,
     };
     Some(r.unwrap_or_else(bad))
